@@ -162,6 +162,35 @@ int main (int argc, char** argv)
     DatumTraits<Estimate<double> >::element (e, 0) = in ("w0"); out ("val", e.val); out ("var", e.var); });
   fn ("traits_scalar", [] { double x = in ("x"); out_int ("ndim", DatumTraits<double>::ndim()); out ("e0", DatumTraits<double>::element (x, 0)); });
 
+#ifndef SYMX_SYMBOLIC
+  // scalar multiplication and division at extreme magnitudes (the property's "huge/tiny and mixed-scale elements"):
+  // the quotient by a complex scalar is the element-wise complex quotient whenever that is representable,
+  // and scalar division commutes with the product
+  fn ("jones_scalar_extreme_plain", [] {
+    typedef std::complex<double> cdd; typedef std::complex<float> cff;
+    const double dirs[][2] = { {1, 0}, {0, 1}, {0.6, -0.8}, {-0.28, 0.96}, {1, 1} };
+    Jones<double> A (cdd (1, 2), cdd (-3, 0.5), cdd (0.25, -1), cdd (2, 2)), B (cdd (0.5, -1), cdd (1, 1), cdd (-2, 0.25), cdd (0, 3));
+    for (double mag : { 1e-300, 1e-250, 1e-200, 1e-170, 1e-160, 1e-155, 1e-100, 1e-10, 1.0, 1e10, 1e100, 1e150, 1e155, 1e160, 1e170, 1e200, 1e250, 1e300 }) for (auto& d : dirs) {
+      cdd c (mag * d[0], mag * d[1]); Jones<double> Q = A / c, P = A * c; char what[200];
+      for (unsigned i=0; i<4; i++) { cdd wq = A[i] / c, wp = A[i] * c;
+        snprintf (what, 200, "(J / c)[%u] = J[%u] / c for c = %g * (%g, %g)", i, i, mag, d[0], d[1]);
+        expect_true (what, std::abs (Q[i] - wq) <= 1e-14 * std::abs (wq));
+        snprintf (what, 200, "(J * c)[%u] = J[%u] * c for c = %g * (%g, %g)", i, i, mag, d[0], d[1]);
+        expect_true (what, std::abs (P[i] - wp) <= 1e-14 * std::abs (wp)); }
+      if (mag >= 1e-150 && mag <= 1e150) { Jones<double> L = (A / c) * B, R = (A * B) / c;
+        snprintf (what, 200, "(A / c) B = (A B) / c for c = %g * (%g, %g)", mag, d[0], d[1]);
+        for (unsigned i=0; i<4; i++) expect_true (what, std::abs (L[i] - R[i]) <= 1e-13 * std::sqrt (norm (R))); } }
+    Jones<float> F (cff (1, 2), cff (-3, 0.5f), cff (0.25f, -1), cff (2, 2));
+    for (float mag : { 1e-35f, 1e-30f, 1e-25f, 1e-20f, 1e-10f, 1.0f, 1e10f, 1e19f, 1e20f, 1e25f, 1e30f, 1e35f }) for (auto& d : dirs) {
+      cff c (mag * float (d[0]), mag * float (d[1])); Jones<float> Q = F / c; char what[200];
+      for (unsigned i=0; i<4; i++) { cff wq = F[i] / c;
+        snprintf (what, 200, "single precision: (J / c)[%u] = J[%u] / c for c = %g * (%g, %g)", i, i, double (mag), d[0], d[1]);
+        expect_true (what, std::abs (Q[i] - wq) <= 1e-5f * std::abs (wq)); } }
+    // real scalars
+    for (double r : { 1e-300, 1e-200, 1e-160, 1e160, 1e200, 1e300, -1e-200, -1e200 }) { Jones<double> Q = A / r; char what[200];
+      for (unsigned i=0; i<4; i++) { snprintf (what, 200, "(J / r)[%u] = J[%u] / r for r = %g", i, i, r); expect_true (what, std::abs (Q[i] - A[i] / r) <= 1e-14 * std::abs (A[i] / r)); } }
+  }, 1);
+#endif
   symx::finish ();
   return 0;
 }
